@@ -48,6 +48,10 @@ type c01Scenario struct {
 	// Burst: all request frames arrive in one segment (the read loop runs ahead of the stream
 	// loop), and all handlers return before the server runs again
 	Burst bool `json:"burst,omitempty"`
+	// InitWin > 0: the peer's SETTINGS_INITIAL_WINDOW_SIZE; responses are held up by it and Grants (request index,
+	// increment) are the stream WINDOW_UPDATEs the peer then sends, in this order
+	InitWin uint32   `json:"initial_window,omitempty"`
+	Grants  [][2]int `json:"grants,omitempty"`
 }
 
 var c01Vocab = []struct {
@@ -79,6 +83,10 @@ var c01Resps = []harness.Resp{
 	{Status: 200, Stream: &harness.BodyStream{Declared: -1}},
 	{Status: 200, Stream: &harness.BodyStream{Declared: 0}},
 	{Status: 404, Stream: &harness.BodyStream{Chunks: [][]byte{[]byte("abcde")}, Declared: 5, OneByte: true}, Headers: [][2]string{{"Connection", "close"}}},
+	// 9-11: streamed bodies with their own filler octet each, larger than a small peer window
+	{Status: 200, Stream: &harness.BodyStream{Chunks: [][]byte{bytesOf('A', 40)}, Declared: 40}},
+	{Status: 200, Stream: &harness.BodyStream{Chunks: [][]byte{bytesOf('B', 25), bytesOf('b', 15)}, Declared: -1}},
+	{Status: 200, Body: bytesOf('C', 40)},
 }
 
 // track builds the frame track of plan p for stream id. Frames of a header
@@ -207,7 +215,11 @@ func c01Track(h *harness.Server, idp *uint32, p c01Plan, want *harness.WantReq) 
 
 // c01Run executes a scenario and checks the oracle.
 func c01Run(sc c01Scenario) (*fw.Violation, *harness.Server) {
-	h := harness.NewServer(harness.ServerOpts{MaxConcurrentStreams: 8})
+	so := harness.ServerOpts{MaxConcurrentStreams: 8}
+	if sc.InitWin > 0 {
+		so.PeerSettings = []peer.Setting{{ID: peer.SInitialWindowSize, Val: sc.InitWin}}
+	}
+	h := harness.NewServer(so)
 	nextID := uint32(1)
 	preCalls := 0
 	if sc.Prelude == "two-completed" {
@@ -312,6 +324,11 @@ func c01Run(sc c01Scenario) (*fw.Violation, *harness.Server) {
 	}
 	if sc.Burst {
 		h.FinishMany(finIdx, finResp)
+	}
+	for _, g := range sc.Grants {
+		if g[0] < len(wants) {
+			h.SendFrames(peer.WindowUpdate(wants[g[0]].ID, uint32(g[1])))
+		}
 	}
 	if len(h.GoAways) > 0 || h.C.Closed() {
 		return mk("connection-error", reactionClass(h.Reaction(from)), "well-formed traffic ended in "+h.Reaction(from)), h
@@ -641,6 +658,35 @@ func runC01(c *fw.Ctx) {
 		}
 	}
 	c.Family("response")
+
+	// ---- family: streamed responses held up by a small stream window, every order of the peer's grants ----
+	for _, set := range [][]int{{9, 10}, {10, 9}, {9, 11}, {11, 10}, {9, 10, 11}} {
+		if len(set) == 3 && !thorough {
+			continue
+		}
+		plans := make([]c01Plan, len(set))
+		lens := make([]int, len(set))
+		for i := range set {
+			plans[i] = basePlan(0)
+			lens[i] = 2
+		}
+		for _, win := range []uint32{10, 1} {
+			inc := [][]int{{7, 100}, {12, 100}, {39, 100}}
+			for _, fin := range permutations(len(set)) {
+				harness.Interleavings(lens, func(order []int) bool {
+					var grants [][2]int
+					seen := make([]int, len(set))
+					for _, t := range order {
+						grants = append(grants, [2]int{t, inc[t][seen[t]]})
+						seen[t]++
+					}
+					do(c01Scenario{Family: "responses-under-flow-control", Plans: plans, Finish: fin, Resp: set, InitWin: win, Grants: grants})
+					return !c.Expired("C01 flow-controlled responses")
+				})
+			}
+		}
+	}
+	c.Family("responses-under-flow-control")
 
 	// ---- family: interleavings ----
 	nstreams := 2
